@@ -117,6 +117,16 @@ func c09GenSource(kind string, n int) string {
 		sb.WriteString(strings.Repeat("f(", n))
 		sb.WriteString("1")
 		sb.WriteString(strings.Repeat(")", n))
+	case "funcblock": // ()=>{()=>{ ... 1 ... }}
+		sb.Grow(6*n + 2)
+		sb.WriteString(strings.Repeat("()=>{", n))
+		sb.WriteString("1")
+		sb.WriteString(strings.Repeat("}", n))
+	case "forblock": // for 1 {[for 1 {[ ... 1 ... ]}]}
+		sb.Grow(10*n + 2)
+		sb.WriteString(strings.Repeat("for 1 {[", n))
+		sb.WriteString("1")
+		sb.WriteString(strings.Repeat("]}", n))
 	case "elseif": // if a {1} else if a {1} else if ...   (a chain, not a nesting in the source)
 		sb.Grow(16*n + 40)
 		sb.WriteString("a=false; if a {1}")
@@ -1281,7 +1291,7 @@ func c09Pinned(c *Ctx) []c09Plan {
 		c09Plan{Job: c09Job{Skel: "aconcat", Src: "a=[1]; for true {vtick(); a=a+a}", MaxDepth: 100, DeadlineMs: 1000, MemLimit: M64, Via: "one"}},
 	)
 	// chains and nestings far beyond what the Go stack takes when the parser, printer or evaluator recurses on them unguarded
-	for _, g := range []string{"elseif", "sum", "dot", "callchain", "index", "lambda", "strcat"} {
+	for _, g := range []string{"elseif", "sum", "dot", "callchain", "index", "lambda", "strcat", "block", "funcblock", "forblock"} {
 		n := 1000000
 		if g == "sum" || g == "dot" || g == "strcat" {
 			n = 4000000 // the printer needs ~300 B of stack per level of a left-deep tree: beyond 1 GB at this size
